@@ -293,6 +293,9 @@ def run(chk, ctx):
                        detail={'reference': ref}, site=site)
     from .. import tsrules
     for cons, okk, why in tsrules.decimal_sign_rule(ctx):
+        if okk is None:
+            chk.undecide('C04.X', cons, why)
+            continue
         chk.ob('C04.X', cons, okk, why, site='pamqp/encode.py::decimal')
     tsres, _n = tsrules.timestamp_operands(ctx)
     for cons, okk, why in tsres:
